@@ -52,4 +52,33 @@ def history_walk(r, fam, thetas, methods, X, sig, case, tol=1e-13):
                             f'{" -> ".join(map(str, order[max(0, step - 2):step + 1]))} answers {m}({X[i].tolist()})='
                             f'{a[i]!r}, a fresh theta={t} object {b[i]!r}', case=case)
                 return
+    # second walk: the object was FITTED first (on a table whose Kendall tau is exactly 0 - or, where that fit is refused, on a
+    # tau = 0.5 table), then only `theta` is assigned, as a user does: the answers belong to the theta the object has now
+    import warnings
+    from copulas.bivariate.base import Bivariate
+    from mc import alphabets as A
+    for tau0 in (0.0, 0.5):
+        cop = Bivariate(copula_type=fam)
+        try:
+            with warnings.catch_warnings():
+                warnings.simplefilter('ignore')
+                cop.fit(A.designed_tau_array(60, tau0))
+        except Exception:
+            continue
+        for step, t in enumerate(order):
+            cop.theta = t
+            fresh = make_biv(fam, t)
+            for m in methods:
+                r.tr(2)
+                r.ev(len(X))
+                a = np.asarray(getattr(cop, m)(X.copy()), float)
+                b = np.asarray(getattr(fresh, m)(X.copy()), float)
+                same = (np.abs(a - b) <= tol * np.maximum(1, np.abs(b))) | (~np.isfinite(a) & ~np.isfinite(b))
+                r.state((fam, 'hist-fitted', tau0, m, step, t))
+                if not same.all():
+                    i = int(np.nonzero(~same)[0][0])
+                    r.violation(f'{sig}:history-dependence', f'{fam}: an object fitted on a table with Kendall tau {tau0} and then '
+                                f'given theta = {t} answers {m}({X[i].tolist()})={a[i]!r}, a fresh theta={t} object {b[i]!r}',
+                                case=case)
+                    return
     r.hit('history-cases')
